@@ -48,6 +48,9 @@ var ops = []string{
 	"edit:inner",
 	"rmsum", "sum:truncate", "sum:garbage", "sum:swap", "sum:crlf",
 	"run:all", "run:force", "run:fail-b", "run:subset-c", "run:nonall",
+	// an All run in whose course (after the load, before Execute) the source of package a is edited: the run judges
+	// and records a by its hash AT LOAD TIME, so the next run sees a changed directory
+	"run:late-edit-a",
 }
 
 func isRun(op string) bool { return strings.HasPrefix(op, "run:") }
@@ -181,6 +184,24 @@ func specFor(dir, op string, root bool) pipe.Spec {
 	return s
 }
 
+// lateEdit: the file operations that turn t into applyEdit(t, op).
+func lateEdit(t pipe.Tree, op string) []pipe.FileOp {
+	n := applyEdit(t, op)
+	var out []pipe.FileOp
+	for k, v := range n {
+		if old, ok := t[k]; !ok || old != v {
+			out = append(out, pipe.FileOp{Path: k, Content: v})
+		}
+	}
+	for k := range t {
+		if _, ok := n[k]; !ok {
+			out = append(out, pipe.FileOp{Path: k, Remove: true})
+		}
+	}
+	sort.Slice(out, func(i, j int) bool { return out[i].Path < out[j].Path })
+	return out
+}
+
 func localPkgs(op string, root bool) []string {
 	ps := localPkgsFlat(op, root)
 	if nested && op != "run:subset-c" {
@@ -263,6 +284,9 @@ func stepDir(c *core.Ctx, cs Case, dir string, t pipe.Tree, op string) (pipe.Tre
 		}
 	}
 	spec := specFor(dir, op, cs.Root)
+	if op == "run:late-edit-a" {
+		spec.AfterLoad = lateEdit(t, "edit:a")
+	}
 	o := pipe.Exec(spec)
 	if os.Getenv("C08_DEBUG") != "" {
 		fmt.Fprintf(os.Stderr, "DEBUG %s: %+v\n", op, o)
